@@ -293,4 +293,12 @@ def r7(F, R):
     R.floor(4)
 
 
-RULES = [("R5", r5, None), ("R1", r1, None), ("R2", r2, None), ("R3", r3, None), ("R4", r4, None), ("R6", r6, None), ("R7", r7, None)]
+def r8_init(F, R):
+    """The counters equal the stream only if they start from nothing: a fresh `Summarize` has every counter at 0 and is `InProgress` (counting)."""
+    fr = [b for b in F.crate_bodies() if (b.impl or {}).get("trait") == "std::convert::From" and (b.impl or {}).get("self_adt") == SUM and b.name.endswith("::from")]
+    if len(fr) != 1:
+        raise Unverifiable(f"From<Writer> for Summarize: {len(fr)}")
+    roles.check_initial_state(F, R, fr[0], SUM, {"features": 0, "rules": 0, "parsing_errors": 0, "failed_hooks": 0, "scenarios": "zeros", "steps": "zeros", "state": "InProgress"}, "summary-starts-empty")
+    R.floor(1)
+
+RULES = [("R5", r5, None), ("R1", r1, None), ("R2", r2, None), ("R3", r3, None), ("R4", r4, None), ("R6", r6, None), ("R7", r7, None), ("R8", r8_init, None)]
